@@ -1,14 +1,549 @@
-//! C20 — stub, to be implemented.
+//! C20 — a configuration file means exactly what it declares, however large (loader tier).
+//!
+//! plan -> TOML text -> real file -> `Config::load_from_path` -> `generate_config_messages()` ->
+//! fresh `ConfigState`, compared with an independent reading of the same TOML (`c20_model`), plus
+//! reload idempotence and constraint-violating neighbours. Runs under an installed World so that
+//! HashMap iteration order inside the loader is part of the plan.
 #![allow(dead_code)]
+use std::collections::{BTreeMap, BTreeSet};
+use std::panic::{catch_unwind, AssertUnwindSafe};
+
 use serde_json::Value;
+use sozu_command_lib::config::Config;
+use sozu_command_lib::proto::command::{request::RequestType, Request};
+use sozu_command_lib::state::{ConfigState, StateError};
+
 use crate::framework::*;
+use crate::prng::TraceHash;
+use crate::world::{SchedCfg, World};
+
+#[path = "c20_model.rs"]
+pub mod model;
+#[path = "c20_obs.rs"]
+pub mod obs;
+#[path = "c20_gen.rs"]
+pub mod gen_;
+
+use gen_::{mutate, render, Cfg, Plan};
+use model::{Model, Rej};
 
 pub struct C20;
 
+fn req_kind(r: &Request) -> &'static str {
+    match &r.request_type {
+        Some(RequestType::AddCluster(_)) => "AddCluster",
+        Some(RequestType::AddHttpListener(_)) => "AddHttpListener",
+        Some(RequestType::AddHttpsListener(_)) => "AddHttpsListener",
+        Some(RequestType::AddTcpListener(_)) => "AddTcpListener",
+        Some(RequestType::AddUdpListener(_)) => "AddUdpListener",
+        Some(RequestType::ActivateListener(_)) => "ActivateListener",
+        Some(RequestType::AddHttpFrontend(_)) => "AddHttpFrontend",
+        Some(RequestType::AddHttpsFrontend(_)) => "AddHttpsFrontend",
+        Some(RequestType::AddTcpFrontend(_)) => "AddTcpFrontend",
+        Some(RequestType::AddUdpFrontend(_)) => "AddUdpFrontend",
+        Some(RequestType::AddCertificate(_)) => "AddCertificate",
+        Some(RequestType::AddBackend(_)) => "AddBackend",
+        Some(RequestType::ConfigureMetrics(_)) => "ConfigureMetrics",
+        Some(_) => "Other",
+        None => "Empty",
+    }
+}
+fn err_kind(e: &StateError) -> &'static str {
+    match e {
+        StateError::Exists { .. } => "Exists",
+        StateError::NotFound { .. } => "NotFound",
+        StateError::NoChange => "NoChange",
+        StateError::InvalidValue { .. } => "InvalidValue",
+        StateError::AddCertificate(_) => "AddCertificate",
+        StateError::FrontendConversion { .. } => "FrontendConversion",
+        StateError::WrongFieldValue(_) => "WrongFieldValue",
+        StateError::UndispatchableRequest => "Undispatchable",
+        StateError::EmptyRequest => "Empty",
+        _ => "Other",
+    }
+}
+fn variant(dbg: &str) -> String { dbg.split(|c: char| !c.is_ascii_alphanumeric()).next().unwrap_or("").to_string() }
+
+/// swallow what the loader prints on stdout (it dumps the whole file on a TOML error and leaves an
+/// unterminated line, which would glue itself to the driver's JSON report line)
+struct Quiet { saved: i32 }
+impl Quiet {
+    fn new(on: bool) -> Quiet {
+        if !on { return Quiet { saved: -1 }; }
+        use std::io::Write;
+        let _ = std::io::stdout().flush();
+        unsafe {
+            let saved = libc::dup(1);
+            let null = libc::open(b"/dev/null\0".as_ptr() as *const libc::c_char, libc::O_WRONLY);
+            if saved >= 0 && null >= 0 { libc::dup2(null, 1); }
+            if null >= 0 { libc::close(null); }
+            Quiet { saved }
+        }
+    }
+}
+impl Drop for Quiet {
+    fn drop(&mut self) {
+        if self.saved < 0 { return; }
+        use std::io::Write;
+        println!();
+        let _ = std::io::stdout().flush();
+        unsafe { libc::dup2(self.saved, 1); libc::close(self.saved); }
+    }
+}
+
+fn tmp_dir(seed: u64) -> std::path::PathBuf {
+    static CTR: std::sync::atomic::AtomicU64 = std::sync::atomic::AtomicU64::new(0);
+    let n = CTR.fetch_add(1, std::sync::atomic::Ordering::SeqCst);
+    verif_root().join("sim/target/tmp").join(format!("c20-{}-{}-{:x}", std::process::id(), n, seed))
+}
+
+fn strip_counts(mut s: ConfigState) -> ConfigState { s.request_counts.clear(); s }
+
+struct Loaded {
+    state: ConfigState,
+    n_messages: usize,
+    distinct_ids: usize,
+    rejected: Vec<(String, String, String)>, // (request kind, error kind, detail)
+    kinds: BTreeMap<&'static str, u64>,
+}
+
+fn load_and_dispatch(path: &str, into: ConfigState, th: &mut TraceHash, log: &mut Vec<String>, verbose: bool) -> Result<Loaded, String> {
+    let config = Config::load_from_path(path).map_err(|e| format!("{e:?}"))?;
+    let msgs = config.generate_config_messages().map_err(|e| format!("generate_config_messages: {e:?}"))?;
+    let mut state = into;
+    let mut rejected = Vec::new();
+    let mut kinds: BTreeMap<&'static str, u64> = BTreeMap::new();
+    let mut ids = BTreeSet::new();
+    for m in &msgs {
+        ids.insert(m.id.clone());
+        let k = req_kind(&m.content);
+        *kinds.entry(k).or_insert(0) += 1;
+        match state.dispatch(&m.content) {
+            Ok(()) => {}
+            Err(e) => {
+                if verbose { log.push(format!("  dispatch {} ({k}) -> {e}", m.id)); }
+                let what = match &m.content.request_type {
+                    Some(RequestType::AddHttpFrontend(f)) => format!("http|{f}"),
+                    Some(RequestType::AddHttpsFrontend(f)) => format!("https|{f}"),
+                    Some(RequestType::AddTcpFrontend(f)) => format!("tcp|{}|{}", f.cluster_id, f.address),
+                    Some(RequestType::AddUdpFrontend(f)) => format!("udp|{}|{}", f.cluster_id, f.address),
+                    Some(RequestType::AddCluster(c)) => c.cluster_id.clone(),
+                    _ => String::new(),
+                };
+                rejected.push((k.to_string(), err_kind(&e).to_string(), format!("{what}: {e}")));
+            }
+        }
+    }
+    // order-insensitive summary of the message list (the order follows the seeded hash order and is
+    // covered by the world seed already)
+    th.mix(msgs.len() as u64);
+    for (k, n) in &kinds { th.mix_bytes(k.as_bytes()); th.mix(*n); }
+    th.mix(rejected.len() as u64);
+    Ok(Loaded { state, n_messages: msgs.len(), distinct_ids: ids.len(), rejected, kinds })
+}
+
+/// declared == loaded
+fn compare(m: &Model, o: &obs::Observed, feature: &str, v: &mut Vec<Violation>) {
+    // a documented-valid feature of the file keys everything; a duplicated declaration only keys the
+    // objects it names
+    let trig_of = |k: &str| -> &str { if m.features.contains(feature) { feature } else if m.dup_routes.contains(k) { "duplicate_route" } else if m.dup_l4.contains(k) { "duplicate_l4_frontend" } else { "none" } };
+    let kind_of = |k: &str| { let mut it = k.split('|'); let a = it.next().unwrap_or(""); if a == "front" { format!("front/{}", it.next().unwrap_or("")) } else { a.to_string() } };
+    for (k, alts) in &m.facts {
+        match o.facts.get(k) {
+            None => v.push(Violation::new("dropped", format!("{}|{}", kind_of(k), trig_of(k)), format!("declared but absent from the loaded state: {k}"))),
+            Some(got) => {
+                let mut best: Option<String> = None;
+                let mut ok = false;
+                for want in alts {
+                    let mut bad = None;
+                    for (ak, av) in want { if av != "*" && got.get(ak) != Some(av) { bad = Some(format!("{ak}: declared {av:?}, loaded {:?}", got.get(ak))); break; } }
+                    for ak in got.keys() { if !want.contains_key(ak) { bad = Some(format!("{ak}: not modelled")); } }
+                    match bad { None => { ok = true; break; } Some(b) => { if best.is_none() { best = Some(b); } } }
+                }
+                if !ok {
+                    let b = best.unwrap_or_default();
+                    let attr = b.split(':').next().unwrap_or("").to_string();
+                    v.push(Violation::new("wrong_value", format!("{}.{attr}|{}", kind_of(k), trig_of(k)), format!("{k}: {b}")));
+                }
+            }
+        }
+    }
+    for k in o.facts.keys() {
+        if !m.facts.contains_key(k) { v.push(Violation::new("invented", format!("{}|{}", kind_of(k), trig_of(k)), format!("present in the loaded state but not declared: {k}"))); }
+    }
+    for k in &o.duplicated { v.push(Violation::new("duplicated", format!("{}|{}", kind_of(k), trig_of(k)), format!("loaded twice: {k}"))); }
+    // backends: multiset matching, declared ids first
+    let mut free: Vec<bool> = vec![true; o.backends.len()];
+    let mut order: Vec<&model::DeclBackend> = m.backends.iter().collect();
+    order.sort_by_key(|b| b.id.is_none());
+    for d in order {
+        let hit = o.backends.iter().enumerate().position(|(i, ob)| free[i] && ob.cluster == d.cluster && ob.addr == d.addr && d.id.as_ref().map_or(true, |id| *id == ob.id) && ob.attrs == d.attrs);
+        match hit {
+            Some(i) => free[i] = false,
+            None => {
+                let near = o.backends.iter().enumerate().find(|(i, ob)| free[*i] && ob.cluster == d.cluster && ob.addr == d.addr && d.id.as_ref().map_or(true, |id| *id == ob.id));
+                match near {
+                    Some((i, ob)) => { free[i] = false; v.push(Violation::new("wrong_value", format!("backend|{}", trig_of("")), format!("backend {} of {}: declared {:?}, loaded {:?}", d.addr, d.cluster, d.attrs, ob.attrs))); }
+                    None => v.push(Violation::new("dropped", format!("backend|{}", trig_of("")), format!("backend {} (id {:?}) of cluster {} declared but not loaded", d.addr, d.id, d.cluster))),
+                }
+            }
+        }
+    }
+    for (i, ob) in o.backends.iter().enumerate() {
+        if free[i] { v.push(Violation::new("invented", format!("backend|{}", trig_of("")), format!("backend {} {} of cluster {} loaded but not declared (or loaded twice)", ob.id, ob.addr, ob.cluster))); }
+    }
+}
+
+fn states_equal(a: &ConfigState, b: &ConfigState) -> Option<&'static str> {
+    if a.clusters != b.clusters { return Some("clusters"); }
+    if a.backends != b.backends { return Some("backends"); }
+    if a.http_listeners != b.http_listeners { return Some("http_listeners"); }
+    if a.https_listeners != b.https_listeners { return Some("https_listeners"); }
+    if a.tcp_listeners != b.tcp_listeners { return Some("tcp_listeners"); }
+    if a.udp_listeners != b.udp_listeners { return Some("udp_listeners"); }
+    if a.http_fronts != b.http_fronts { return Some("http_fronts"); }
+    if a.https_fronts != b.https_fronts { return Some("https_fronts"); }
+    if a.tcp_fronts != b.tcp_fronts { return Some("tcp_fronts"); }
+    if a.udp_fronts != b.udp_fronts { return Some("udp_fronts"); }
+    if a.certificates != b.certificates { return Some("certificates"); }
+    None
+}
+
+/// trigger classification from the *model's* view of the file (never from sozu's behaviour)
+fn trigger_of(m: &Model) -> String {
+    if let Some(f) = m.features.iter().next() { return f.clone(); }
+    if !m.dup_routes.is_empty() { return "duplicate_route".into(); }
+    if !m.dup_l4.is_empty() { return "duplicate_l4_frontend".into(); }
+    "none".into()
+}
+
+struct Outcome {
+    violations: Vec<Violation>,
+    th: TraceHash,
+    probes: BTreeMap<String, u64>,
+    nontrivial: bool,
+    harness_error: Option<String>,
+    log: Vec<String>,
+}
+
+fn probe(p: &mut BTreeMap<String, u64>, k: &str, n: u64) { *p.entry(k.to_string()).or_insert(0) += n; }
+
+/// one TOML document through the whole pipeline. `role`: "base" or the mutation kind.
+fn check_document(text: &str, dir: &std::path::Path, name: &str, role: &str, full: bool, out: &mut Outcome, verbose: bool) {
+    let th = &mut out.th;
+    th.mix_bytes(text.as_bytes());
+    let doc: toml::Table = match toml::from_str(text) {
+        Ok(d) => d,
+        Err(e) => { out.harness_error = Some(format!("generated TOML does not parse ({role}): {e}")); return; }
+    };
+    let verdict = model::read(&doc);
+    let path = dir.join(name);
+    if let Err(e) = std::fs::write(&path, text) { out.harness_error = Some(format!("write {path:?}: {e}")); return; }
+    let path_s = path.to_string_lossy().to_string();
+    let loaded = { let _q = Quiet::new(!verbose); load_and_dispatch(&path_s, ConfigState::new(), th, &mut out.log, verbose) };
+    if verbose { out.log.push(format!("[{role}] model: {} | loader: {}", match &verdict { Ok(_) => "valid".to_string(), Err(r) => format!("{r:?}") }, match &loaded { Ok(l) => format!("accepted, {} messages ({} distinct ids), {} rejected by state", l.n_messages, l.distinct_ids, l.rejected.len()), Err(e) => format!("rejected: {}", e.chars().take(200).collect::<String>()) })); }
+    match (&verdict, &loaded) {
+        (Err(Rej::Unmodelled(w)), _) => { out.harness_error = Some(format!("[{role}] outside the modelled grammar: {w}")); }
+        (Err(Rej::Reject(why)), Err(e)) => { th.mix(1); th.mix_bytes(variant(e).as_bytes()); probe(&mut out.probes, "neighbour_rejected_by_loader", 1); probe(&mut out.probes, &format!("reject_reason:{}", why.split(':').next().unwrap_or("")), 1); }
+        (Err(Rej::Reject(why)), Ok(l)) => {
+            th.mix(2);
+            // (d) a documented constraint is violated but the loader produced a configuration
+            let mut detail = format!("[{role}] the file violates a documented constraint ({why}) but load_from_path accepted it and produced {} messages", l.n_messages);
+            if !l.rejected.is_empty() {
+                let o = obs::observe(&l.state);
+                detail += &format!("; a fresh ConfigState then refuses {} of them ({}), leaving a partial configuration: {} clusters, {} frontends, {} backends", l.rejected.len(), l.rejected.iter().take(2).map(|r| format!("{} -> {}", r.0, r.2)).collect::<Vec<_>>().join("; "), l.state.clusters.len(), l.state.count_frontends(), o.backends.len());
+            }
+            out.violations.push(Violation::new("violating_config_accepted", why.split(':').next().unwrap_or("").to_string(), detail));
+        }
+        (Ok(m), Err(e)) => {
+            th.mix(3);
+            th.mix_bytes(variant(e).as_bytes());
+            let trig = trigger_of(m);
+            out.violations.push(Violation::new("valid_config_rejected", format!("{}|{trig}", variant(e)), format!("[{role}] file built from the documented grammar refused by the loader: {}", e.chars().take(300).collect::<String>())));
+        }
+        (Ok(m), Ok(l)) => {
+            th.mix(4);
+            if role != "base" { probe(&mut out.probes, "neighbour_still_valid", 1); }
+            let trig = trigger_of(m);
+            probe(&mut out.probes, "messages_dispatched", l.n_messages as u64);
+            if l.n_messages > 256 { probe(&mut out.probes, "runs_with_u8_id_wrap", 1); probe(&mut out.probes, "id_wraps", (l.n_messages / 256) as u64); }
+            if l.distinct_ids < l.n_messages { probe(&mut out.probes, "runs_with_duplicate_message_ids", 1); }
+            for (k, n) in &l.kinds { probe(&mut out.probes, &format!("msg:{k}"), *n); }
+            // (a) totality
+            for (rk, ek, d) in &l.rejected {
+                let t = match rk.as_str() {
+                    "AddHttpFrontend" | "AddHttpsFrontend" if !m.dup_routes.is_empty() => "duplicate_route",
+                    "AddTcpFrontend" | "AddUdpFrontend" if !m.dup_l4.is_empty() => "duplicate_l4_frontend",
+                    _ => trig.as_str(),
+                };
+                out.violations.push(Violation::new("message_rejected", format!("{rk}|{ek}|{t}"), format!("[{role}] loader accepted the file but a fresh ConfigState refused a generated message ({} messages in total): {d}", l.n_messages)));
+            }
+            if !full { return; }
+            // (b) declared == loaded
+            let o = obs::observe(&l.state);
+            for (k, a) in &o.facts { th.mix_bytes(k.as_bytes()); for (ak, av) in a { th.mix_bytes(ak.as_bytes()); th.mix_bytes(av.as_bytes()); } }
+            for b in &o.backends { th.mix_bytes(b.cluster.as_bytes()); th.mix_bytes(b.addr.as_bytes()); th.mix_bytes(b.id.as_bytes()); }
+            let before = out.violations.len();
+            compare(m, &o, &trig, &mut out.violations);
+            if verbose { for x in &out.violations[before..] { out.log.push(format!("  {} {} {}", x.class, x.key, x.detail)); } }
+            probe(&mut out.probes, "objects_compared", (m.facts.len() + m.backends.len()) as u64);
+            probe(&mut out.probes, "listeners_declared", m.n_listeners as u64);
+            probe(&mut out.probes, "listeners_implicit", m.n_implicit as u64);
+            probe(&mut out.probes, "clusters", m.n_clusters as u64);
+            probe(&mut out.probes, "frontends", m.n_frontends as u64);
+            probe(&mut out.probes, "backends", m.n_backends as u64);
+            probe(&mut out.probes, "certificates", m.n_certs as u64);
+            if m.facts.len() + m.backends.len() > 0 { out.nontrivial = true; }
+            // (c) idempotence: the same file again, over the state it produced
+            let first = strip_counts(l.state.clone());
+            let second = { let _q = Quiet::new(!verbose); load_and_dispatch(&path_s, l.state.clone(), th, &mut out.log, false) };
+            match second {
+                Err(e) => out.violations.push(Violation::new("reload_rejected", format!("{}|{trig}", variant(&e)), format!("second load of the same file failed: {e}"))),
+                Ok(l2) => {
+                    let again = strip_counts(l2.state);
+                    for (rk, ek, d) in &l2.rejected {
+                        if ek != "Exists" { out.violations.push(Violation::new("reload_error", format!("{rk}|{ek}|{trig}"), format!("reloading the same file: {d}"))); }
+                    }
+                    probe(&mut out.probes, "reload_already_exists_answers", l2.rejected.len() as u64);
+                    if let Some(field) = states_equal(&first, &again) {
+                        th.mix(5);
+                        out.violations.push(Violation::new("reload_changed_state", format!("{field}|{trig}"), format!("loading the same file over the state it produced changed `{field}`")));
+                    }
+                    let d1 = first.diff(&again);
+                    let d2 = again.diff(&first);
+                    th.mix((d1.len() + d2.len()) as u64);
+                    if !d1.is_empty() || !d2.is_empty() {
+                        let kinds: BTreeSet<&str> = d1.iter().chain(d2.iter()).map(req_kind).collect();
+                        out.violations.push(Violation::new("reload_diff_not_empty", format!("{}|{trig}", states_equal(&first, &again).unwrap_or("states_equal")), format!("diff(state, reload(state)) has {} requests, reverse {} ({})", d1.len(), d2.len(), kinds.into_iter().collect::<Vec<_>>().join("+"))));
+                    }
+                    probe(&mut out.probes, "reloads_checked", 1);
+                }
+            }
+        }
+    }
+}
+
+/// Process-wide lazily initialised tables inside the code under test (e.g. the X.509 OID registry)
+/// create HashMaps on first use and thereby shift the per-thread hash-key counter of whichever run
+/// comes first in a process. Exercise every stage once, on a throw-away thread, before the first
+/// real run so that the hash order seen by a plan does not depend on what ran before it.
+fn warm_up() {
+    static WARM: std::sync::Once = std::sync::Once::new();
+    WARM.call_once(|| {
+        crate::netsim::on_fresh_thread(|| {
+            let mut w = World::new(0, SchedCfg::default());
+            World::install(&mut w);
+            let dir = tmp_dir(0);
+            let _ = catch_unwind(AssertUnwindSafe(|| {
+                let text = format!(r#"
+[[listeners]]
+protocol = "https"
+address = "127.0.0.1:8443"
+certificate = "{c}"
+key = "{k}"
+certificate_chain = "{ch}"
+[[listeners]]
+protocol = "http"
+address = "127.0.0.1:8080"
+[[listeners]]
+protocol = "tcp"
+address = "127.0.0.1:8081"
+[[listeners]]
+protocol = "udp"
+address = "127.0.0.1:53"
+[clusters.w]
+protocol = "http"
+frontends = [
+  {{ address = "127.0.0.1:8080", hostname = "w.test", path = "/a", path_type = "REGEX" }},
+  {{ address = "127.0.0.1:8443", hostname = "w.test" }},
+  {{ address = "127.0.0.1:8443", hostname = "v.test", certificate = "{c2}", key = "{k2}" }},
+]
+backends = [ {{ address = "127.0.0.1:1" }} ]
+[clusters.w.health_check]
+uri = "/"
+[clusters.t]
+protocol = "tcp"
+frontends = [ {{ address = "127.0.0.1:8081" }}, {{ address = "127.0.0.1:53" }} ]
+backends = [ {{ address = "127.0.0.1:2" }} ]
+"#, c = gen_::CERTS[0].0, k = gen_::CERTS[0].1, ch = gen_::CERTS[0].2.unwrap(), c2 = gen_::CERTS[1].0, k2 = gen_::CERTS[1].1);
+                if std::fs::create_dir_all(&dir).is_err() { return; }
+                let path = dir.join("warm.toml");
+                if std::fs::write(&path, &text).is_err() { return; }
+                let _q = Quiet::new(true);
+                let mut th = TraceHash::new();
+                let mut log = Vec::new();
+                let path_s = path.to_string_lossy().to_string();
+                if let Ok(l) = load_and_dispatch(&path_s, ConfigState::new(), &mut th, &mut log, false) {
+                    let _ = load_and_dispatch(&path_s, l.state.clone(), &mut th, &mut log, false).map(|l2| l.state.diff(&l2.state).len());
+                    let _ = obs::observe(&l.state);
+                }
+                if let Ok(doc) = toml::from_str::<toml::Table>(&text) { let _ = model::read(&doc); }
+            }));
+            let _ = std::fs::remove_dir_all(&dir);
+            World::uninstall();
+        })
+    });
+}
+
+fn run(p: &Plan, verbose: bool) -> Outcome {
+    warm_up();
+    let p = p.clone();
+    crate::netsim::on_fresh_thread(move || {
+        let mut w = World::new(p.world_seed, SchedCfg::default());
+        World::install(&mut w);
+        let mut out = Outcome { violations: vec![], th: TraceHash::new(), probes: BTreeMap::new(), nontrivial: false, harness_error: None, log: vec![] };
+        let dir = tmp_dir(p.seed);
+        let r = catch_unwind(AssertUnwindSafe(|| {
+            if let Err(e) = std::fs::create_dir_all(&dir) { out.harness_error = Some(format!("mkdir {dir:?}: {e}")); return; }
+            let text = render(&p.cfg, p.style);
+            if verbose { out.log.push(text.clone()); }
+            check_document(&text, &dir, "config.toml", "base", true, &mut out, verbose);
+            for (i, m) in p.mutations.iter().enumerate() {
+                let Some(c2) = mutate(&p.cfg, m) else { probe(&mut out.probes, "mutation_not_applicable", 1); continue };
+                let t2 = render(&c2, p.style);
+                probe(&mut out.probes, "neighbours", 1);
+                probe(&mut out.probes, &format!("mut:{}", m.kind), 1);
+                if verbose { out.log.push(format!("---- neighbour {i}: {m:?}")); }
+                check_document(&t2, &dir, &format!("neighbour-{i}.toml"), &m.kind, false, &mut out, verbose);
+            }
+        }));
+        let _ = std::fs::remove_dir_all(&dir);
+        if let Err(pn) = r {
+            let msg = if let Some(s) = pn.downcast_ref::<&str>() { s.to_string() } else if let Some(s) = pn.downcast_ref::<String>() { s.clone() } else { "panic".into() };
+            out.violations.push(Violation::new("panic", "loader", msg));
+        }
+        World::uninstall();
+        out
+    })
+}
+
+fn summarize(p: &Plan) -> String {
+    let nf: usize = p.cfg.clusters.iter().map(|c| c.frontends.len()).sum();
+    let nb: usize = p.cfg.clusters.iter().map(|c| c.backends.len()).sum();
+    let mut protos: BTreeMap<String, usize> = BTreeMap::new();
+    for l in &p.cfg.listeners { *protos.entry(l.get("protocol").and_then(|x| x.as_str()).unwrap_or("?").to_string()).or_insert(0) += 1; }
+    format!("{} style={} globals={} listeners={:?} clusters={} frontends={} backends={} neighbours=[{}]", p.family, p.style, p.cfg.globals.len(), protos, p.cfg.clusters.len(), nf, nb, p.mutations.iter().map(|m| m.kind.clone()).collect::<Vec<_>>().join(","))
+}
+
+/// how a configuration edit shifts the indices the neighbours refer to
+#[derive(Clone, Copy)]
+enum Shift { None, Listeners { from: usize, by: usize }, Clusters { from: usize, by: usize }, Frontends { cluster: usize, from: usize, by: usize }, Backends { cluster: usize, from: usize, by: usize } }
+
+fn level(kind: &str) -> &'static str {
+    match kind {
+        "listener_unknown_protocol" | "listener_missing_protocol" | "dup_listener_address" | "hsts_on_http_listener" | "hsts_without_enabled" | "alpn_invalid" | "disable_http11_conflict" | "public_address_with_expect_proxy" | "bad_tls_version" | "unknown_field_listener" | "bad_address" | "udp_expect_proxy" => "listener",
+        "h2_small_buffer" | "auto_save_without_state" | "bad_metrics_detail" => "global",
+        "cluster_unknown_protocol" | "unknown_field_cluster" | "bad_load_balancing" | "bad_affinity_key" | "health_check_zero_interval" | "health_check_bad_uri" | "mixed_expect_proxy" => "cluster",
+        "unknown_field_backend" => "backend",
+        _ => "frontend",
+    }
+}
+
+/// removing elements [from, from+by) : indices above move down, indices inside lose their target
+fn shift_mutations(ms: &[gen_::Mutation], sh: Shift) -> Vec<gen_::Mutation> {
+    let mut out = Vec::new();
+    for m in ms {
+        let mut m = m.clone();
+        let lv = level(&m.kind);
+        let adj = |x: usize, from: usize, by: usize| -> Option<usize> { if x < from { Some(x) } else if x < from + by { None } else { Some(x - by) } };
+        let keep = match sh {
+            Shift::None => true,
+            Shift::Listeners { from, by } => if lv == "listener" { match adj(m.a, from, by) { Some(a) => { m.a = a; true } None => false } } else { true },
+            Shift::Clusters { from, by } => if lv == "cluster" || lv == "frontend" || lv == "backend" { match adj(m.a, from, by) { Some(a) => { m.a = a; true } None => false } } else { true },
+            Shift::Frontends { cluster, from, by } => if lv == "frontend" && m.a == cluster { match adj(m.b, from, by) { Some(b) => { m.b = b; true } None => false } } else { true },
+            Shift::Backends { cluster, from, by } => if lv == "backend" && m.a == cluster { match adj(m.b, from, by) { Some(b) => { m.b = b; true } None => false } } else { true },
+        };
+        if keep { out.push(m); }
+    }
+    out
+}
+
+fn shrink_cfg(c: &Cfg) -> Vec<(Cfg, Shift)> {
+    let mut out = Vec::new();
+    // halves first
+    let (nc, nl) = (c.clusters.len(), c.listeners.len());
+    if nc > 1 { let mut q = c.clone(); q.clusters.truncate(nc / 2); out.push((q, Shift::Clusters { from: nc / 2, by: nc - nc / 2 })); let mut q = c.clone(); q.clusters.drain(..nc / 2); out.push((q, Shift::Clusters { from: 0, by: nc / 2 })); }
+    if nl > 1 { let mut q = c.clone(); q.listeners.truncate(nl / 2); out.push((q, Shift::Listeners { from: nl / 2, by: nl - nl / 2 })); let mut q = c.clone(); q.listeners.drain(..nl / 2); out.push((q, Shift::Listeners { from: 0, by: nl / 2 })); }
+    for i in 0..nc { let mut q = c.clone(); q.clusters.remove(i); out.push((q, Shift::Clusters { from: i, by: 1 })); }
+    for i in 0..nl { let mut q = c.clone(); q.listeners.remove(i); out.push((q, Shift::Listeners { from: i, by: 1 })); }
+    for i in 0..nc {
+        let (nf, nb) = (c.clusters[i].frontends.len(), c.clusters[i].backends.len());
+        if nf > 1 { let mut q = c.clone(); q.clusters[i].frontends.truncate(nf / 2); out.push((q, Shift::Frontends { cluster: i, from: nf / 2, by: nf - nf / 2 })); }
+        if nb > 1 { let mut q = c.clone(); q.clusters[i].backends.truncate(nb / 2); out.push((q, Shift::Backends { cluster: i, from: nb / 2, by: nb - nb / 2 })); }
+        for j in 0..nf { let mut q = c.clone(); q.clusters[i].frontends.remove(j); out.push((q, Shift::Frontends { cluster: i, from: j, by: 1 })); }
+        for j in 0..nb { let mut q = c.clone(); q.clusters[i].backends.remove(j); out.push((q, Shift::Backends { cluster: i, from: j, by: 1 })); }
+    }
+    if !c.globals.is_empty() { let mut q = c.clone(); q.globals.clear(); out.push((q, Shift::None)); }
+    for k in c.globals.keys() { let mut q = c.clone(); q.globals.remove(k); out.push((q, Shift::None)); }
+    for i in 0..nl {
+        if c.listeners[i].len() > 3 { let mut q = c.clone(); q.listeners[i].retain(|k, _| k == "address" || k == "protocol"); out.push((q, Shift::None)); }
+        for k in c.listeners[i].keys() { if k != "address" && k != "protocol" { let mut q = c.clone(); q.listeners[i].remove(k); out.push((q, Shift::None)); } }
+    }
+    for i in 0..nc {
+        for k in c.clusters[i].fields.keys() { if k != "protocol" { let mut q = c.clone(); q.clusters[i].fields.remove(k); out.push((q, Shift::None)); } }
+        for j in 0..c.clusters[i].frontends.len() {
+            for k in c.clusters[i].frontends[j].keys() { if k != "address" && k != "hostname" { let mut q = c.clone(); q.clusters[i].frontends[j].remove(k); out.push((q, Shift::None)); } }
+        }
+        for j in 0..c.clusters[i].backends.len() {
+            for k in c.clusters[i].backends[j].keys() { if k != "address" { let mut q = c.clone(); q.clusters[i].backends[j].remove(k); out.push((q, Shift::None)); } }
+        }
+    }
+    out
+}
+
 impl Property for C20 {
     fn id(&self) -> &'static str { "C20" }
-    fn runs(&self, _tier: Tier) -> u64 { 0 }
-    fn gen_plan(&self, _seed: u64, _tier: Tier) -> Value { Value::Null }
-    fn run_plan(&self, _plan: &Value) -> RunReport { RunReport { harness_error: Some("not implemented".into()), ..Default::default() } }
-    fn descr(&self) -> Descr { Descr { level: "exploration", rule: "", assumptions: vec![], real: vec![], stub: vec![], not_covered: vec![] } }
+    fn runs(&self, tier: Tier) -> u64 { match tier { Tier::Quick => 20_000, Tier::Thorough => 1_000_000 } }
+    fn gen_plan(&self, seed: u64, tier: Tier) -> Value { serde_json::to_value(gen_::generate(seed, tier)).unwrap() }
+    fn run_plan(&self, plan: &Value) -> RunReport {
+        let p: Plan = match serde_json::from_value(plan.clone()) { Ok(p) => p, Err(e) => return RunReport { harness_error: Some(format!("bad plan: {e}")), ..Default::default() } };
+        if std::env::var("SIMK_C20_DEBUG").is_ok() { eprintln!("{}", self.debug_plan(plan)); }
+        let o = run(&p, false);
+        let mut rep = RunReport { seed: p.seed, family: p.family.clone(), violations: o.violations, trace_hash: o.th.0, summary: summarize(&p), ..Default::default() };
+        // one violation per (class, key)
+        let mut seen = BTreeSet::new();
+        rep.violations.retain(|v| seen.insert((v.class.clone(), v.key.clone())));
+        rep.nontrivial = o.nontrivial;
+        rep.probes = o.probes;
+        rep.harness_error = o.harness_error;
+        rep
+    }
+    fn shrink(&self, plan: &Value) -> Vec<Value> {
+        let Ok(p) = serde_json::from_value::<Plan>(plan.clone()) else { return vec![] };
+        let mut out = Vec::new();
+        // a violation of a neighbour only needs that neighbour; a violation of the base needs none
+        if !p.mutations.is_empty() { let mut q = p.clone(); q.mutations.clear(); out.push(q); }
+        if p.mutations.len() > 1 { for i in 0..p.mutations.len() { let mut q = p.clone(); q.mutations = vec![p.mutations[i].clone()]; out.push(q); } }
+        for (c, sh) in shrink_cfg(&p.cfg) {
+            let mut q = p.clone();
+            q.cfg = c;
+            q.mutations = shift_mutations(&p.mutations, sh);
+            out.push(q);
+        }
+        if p.style != 0 { let mut q = p.clone(); q.style = 0; out.push(q); }
+        out.into_iter().map(|p| serde_json::to_value(p).unwrap()).collect()
+    }
+    fn debug_plan(&self, plan: &Value) -> String {
+        let Ok(p) = serde_json::from_value::<Plan>(plan.clone()) else { return "bad plan".into() };
+        let o = run(&p, true);
+        let mut s = o.log.join("\n");
+        s += &format!("\nviolations: {:#?}\nharness_error: {:?}\nprobes: {:?}\n", o.violations, o.harness_error, o.probes);
+        s
+    }
+    fn descr(&self) -> Descr {
+        Descr {
+            level: "exploration",
+            rule: "seeded TOML files from the documented grammar (0..600 entries, all four listener protocols, optional fields by swarm density, IPv4/IPv6, path rule kinds, H2 knobs, per-cluster overrides, certificates, two TOML layouts) plus single-mutation constraint-violating neighbours; a run is non-trivial when the loader accepted the base file and >=1 declared object was compared; distinct = distinct hashes of (TOML text, loader verdicts, message census, loaded facts)",
+            assumptions: vec!["release semantics (overflow checks off: the u8 message counter wraps)", "certificate / answer fixtures are the PEM files of /repo/lib/assets and /verif/fixtures/c20", "hash seeds come from the installed World (part of the plan)"],
+            real: vec!["sozu_command_lib::config::{FileConfig, ConfigBuilder, Config::load_from_path, generate_config_messages}", "toml deserialisation through serde", "sozu_command_lib::state::ConfigState::{dispatch, diff}", "real files on disk"],
+            stub: vec!["entropy / clock (World)"],
+            not_covered: vec![
+                "scatter tier: the real master hub dispatching hundreds of messages into capped worker channels (load_static_config + scatter_on, slow workers, per-worker exactly-once) — hubsim, not built here",
+                "workers applying the messages (listeners bound, routers filled): only the main process's ConfigState is observed",
+                "saved_state / automatic_state_save paths, command_socket resolution, metrics section effects",
+                "referenced files that do not exist (answer / certificate paths): documentation is silent on reject-vs-ignore",
+                "doc/configure.md sentence 'refuses to start when an HTTPS listener has no matching frontend' (ambiguous, not checked)",
+            ],
+        }
+    }
 }
